@@ -29,7 +29,7 @@ type C22Scn struct {
 	Transfer int      `json:"transfer,omitempty"`
 	Torn     bool     `json:"torn"`
 	SyncFail []int    `json:"sync_fail,omitempty"` // which File.Sync calls fail with EIO (1-based), injected in every crash-point run alike
-	OnlyK    int      `json:"only_k,omitempty"` // replay/minimised: run only this crash point (-1 = all)
+	OnlyK    int      `json:"only_k,omitempty"`    // replay/minimised: run only this crash point (-1 = all)
 	Sched    SchedCfg `json:"sched"`
 	// concurrent class: Conc[i] is the request list of client i (its own connection); Ops is then empty.
 	// Requests of different clients overlap under the seeded scheduler, so backend calls of several WRITEs
